@@ -652,7 +652,7 @@ GROUPS = {
     'c13': [builder_helpers],
     'c14': [automaton_accessors, table_helpers],
     'c17': [string_helpers],
-    'c16': [matcher_leaves],
+    'c16': [matcher_leaves, regex_predicates],
     'c19': [queue_helpers],
 }
 
